@@ -111,3 +111,17 @@ pub fn array_from_slice<const N: usize>(s: &[u8]) -> (r: [u8; N])
 {
     <[u8; N]>::try_from(s).expect("slice should be same length as array")
 }
+
+// `&mut v[lo..hi]` on a Vec<u8> field (R6; Verus accepts the syntax but has no specification for it):
+// the sub-slice aliases exactly v[lo..hi]; whatever is written through it lands there, nothing else changes.
+#[verifier::external_body]
+pub fn vec_slice_mut(v: &mut Vec<u8>, lo: usize, hi: usize) -> (r: &mut [u8])
+    requires
+        lo <= hi <= old(v)@.len(),
+    ensures
+        r@ == old(v)@.subrange(lo as int, hi as int),
+        final(v)@ == old(v)@.subrange(0, lo as int) + final(r)@ + old(v)@.subrange(hi as int, old(v)@.len() as int),
+        final(r)@.len() == r@.len(),
+{
+    &mut v[lo..hi]
+}
